@@ -107,7 +107,9 @@ def _probe_c14(case, res, reach):
 def judge_c14(case):
     res, reach, refs = _base(case)
     _probe_c14(case, res, reach)
-    findings = judge_history("C14", case, res, reach, refs)
+    # (an adversary's solve may be hit by a fault -- a raising callback: what it leaves behind in the
+    # process must not reach the other models; the faulted solve itself has no fault-free twin)
+    findings = judge_history("C14", case, res, reach, refs, skip_planned=True)
     return _done(case, res, reach, refs, findings)
 
 
